@@ -54,14 +54,14 @@ theorem set_refines (T : Nat) (hT : legalThreshold T = true) (D : DigestFn (r + 
         m'.count = (if (dictLookup m.toList k).isSome then m.count else m.count + 1) ∧
         MapInv T D m' ∧ CtxOk m' c' ∧ m'.rootID = m.rootID ∧ m'.ty = m.ty ∧ m'.seed = m.seed) ∨
     (m.set cfg k v c = .error .collisionLimit ∧ dictLookup m.toList k = none) := by
-  have hs := OMap.set_spec hT hcfg h hk hv c hc
+  have hs := OMap.set_spec hT hcfg h hk hv c
   by_cases hl : TLimited cfg m.d m.root k
   · right
     exact ⟨hs.1 hl, (dictLookup_none_iff h.allKeyOk hk).mpr (tlimited_absent hT m.d true m.root h.sinv hl)⟩
   · left
     obtain ⟨old, m', c', heq, hp⟩ := hs.2 hl
     obtain ⟨e1, _, _, e4⟩ := hp.eff.spec h.allKeyOk h.distinct hk
-    refine ⟨old, m', c', heq, e1, e4, ?_, hp.inv, hp.ctx, hp.rootID, hp.ty, hp.seed⟩
+    refine ⟨old, m', c', heq, e1, e4, ?_, hp.inv, hp.ctx hc, hp.rootID, hp.ty, hp.seed⟩
     rw [hp.count, ← e1]
     cases old <;> simp
 
